@@ -20,6 +20,11 @@ the real molli code, judged by float64 numpy written in mc/props/c11_num.py:
        atom with a lower or a higher index / add_atom / parent.translate / parent.transform), then used for
        translate, transform, coords=, read: atoms matched by identity; the same for a kept Conformer (and a
        Substructure of it) across ensemble translate / rotate / center_at_core / an edit of another conformer
+  arg  every function above with each argument kind (float64, strided view, read-only, float32, int64, list,
+       tuple): the arguments are bit-identical afterwards, the effect is the documented one
+  own  arguments that are VIEWS of the object's own coordinates (get_atom_coord, coords[i], vector, ensemble rows /
+       columns / conformers, a row of the reference): computing a matrix must not move an atom; the whole
+       "orient the molecule" history is a rigid motion that puts the chosen atom on the target axis
 
 Only ctx.seed-dependent thing: the global rotation G(seed) of the lattices and of the molecules.
 """
@@ -1858,7 +1863,13 @@ def run(ctx):
         + " x target menu; stated molecules/ensembles in the global pose; for every test molecule and selection a Substructure KEPT across "
         "each parent edit of {none, del_atom of an unselected atom with a lower / a higher index, add_atom, parent.translate, "
         "parent.transform, del+add} and then used (translate, transform, coords=, both, read), with and without one read of the view before the parent edit, atoms matched by identity; every conformer "
-        "view (and a Substructure of it) kept across 7 ensemble edits x 4 edits through the view. The result is 'holds at every lattice point' and says "
+        "view (and a Substructure of it) kept across 7 ensemble edits x 4 edits through the view; every function of the property that takes "
+        "array arguments (both rotation constructors, translate, transform, coords=, ensemble translate/rotate/coords=/center_at_core/"
+        "align_to_ref_coords) called with each argument kind of {float64, strided float64 view, read-only float64, float32, int64, list, "
+        "tuple}: arguments bit-identical afterwards and the documented effect; the same functions fed with VIEWS of the object's own "
+        "coordinates (get_atom_coord(i), coords[i], vector(i,j), a row/column/conformer of the ensemble, a row of the reference) - the object "
+        "must be unchanged by merely computing a matrix - and the full 'orient' history over every bond in both directions (A to the origin, "
+        "rotate A->C onto a target axis / about the axis through C / onto A->B). The result is 'holds at every lattice point' and says "
         "nothing about values outside the lattice. A case is non-trivial when it passes its oracle AND actually moves something "
         "(rotation angle != 0 mod 2pi, displacement > 1e-6, vectors not parallel)"
     )
@@ -1871,6 +1882,7 @@ def run(ctx):
         "RNG answers are restricted to [0,1)^3, the range of numpy.random.rand; after the first enumerated answer the seam continues with different answers, as a real generator would",
         "alignment: func is a plain (un-centred) Kabsch in the P @ R ~ Q convention of scripts/align.py returning the true RMSD; conformers for which two index mappings fit equally well (gap < 1e-6) are excluded from the pose-independence comparison only",
         "kept-view histories: the parent edit between creating and using a view is harness set-up through the public API (del_atom / add_atom with an explicit charge); whether that edit itself is consistent is C05's subject - the oracle compares the state after the view was used with the state right before, atom by atom",
+        "argument kinds: a float32 argument is judged against its own (rounded) value with tolerance 1e-5/1e-6; float32 vectors within 1+cos < 1e-3 of antiparallel are judged for argument integrity only (the documented switch tol=1e-8 is below float32 resolution; counted in notes); center_at_core takes python-int lists/tuples as documented",
         "rotate_dihedral is exercised on acyclic bonds only; dihedrals with collinear triples do not occur in the test molecules",
     ]
     ctx.bound.update(
